@@ -50,11 +50,24 @@ class _BatchSpy:
     def __call__(self, X, affinity_matrix=None, random_state=None):
         rec = self._rec
         first = True
+        pool = None
+        if rec.ids_mode == "match":
+            # sample identity by matching batch rows with the rows of the full array (duplicates: any unused equal row)
+            pool = {}
+            for i, row in enumerate(np.asarray(X)):
+                pool.setdefault(np.ascontiguousarray(row).tobytes(), []).append(i)
+            pool = {k: v[::-1] for k, v in pool.items()}
         for xb, ab in self._inner(X, affinity_matrix, random_state):
             if first:
                 rec.events.append(dict(e="epoch"))
                 first = False
-            ids = [int(round(v)) for v in np.asarray(xb)[:, 0]]
+            if pool is None:
+                ids = [int(round(v)) for v in np.asarray(xb)[:, 0]]
+            else:
+                ids = []
+                for row in np.asarray(xb):
+                    lst = pool.get(np.ascontiguousarray(row).tobytes())
+                    ids.append(lst.pop() if lst else -1)
             ev = dict(e="batch", idx=ids, hasblock=ab is not None, blockint=False, block=[], rec=[], blockok=True)
             if ab is not None:
                 ab_ = np.asarray(ab)
@@ -92,6 +105,7 @@ class Recorder:
         self.full_affinity = None if full_affinity is None else np.asarray(full_affinity, dtype=float)
         self.affid = bool(self.full_affinity is not None and self.full_affinity.shape == (n, n)
                           and np.array_equal(self.full_affinity, id_affinity(n)))
+        self.ids_mode = "column"
         self.d_hint = d
         self.groups_hint = complete_groups(getattr(model, "groups", None), d) if d else None
         self.t = 0
@@ -294,7 +308,7 @@ def full_affinity_of(model, X, y=None):
         return g.compute_affinity(Xa, y)
 
 
-def record_fit(model, X, y=None, decorated=False, direction_check=None):
+def record_fit(model, X, y=None, decorated=False, direction_check=None, ids="column"):
     """Run model.fit(X, y) under the recorder; returns (events, exception or None)."""
     n = len(X)
     try:
@@ -302,6 +316,7 @@ def record_fit(model, X, y=None, decorated=False, direction_check=None):
     except Exception:
         full = None
     rec = Recorder(model, n, "fit", decorated, direction_check, full is not None, full, d=np.shape(X)[1])
+    rec.ids_mode = ids
     err = None
     with rec:
         try:
